@@ -168,6 +168,9 @@ func (l jsonList) patch(pathBehind, pathAhead path, oldValues, newValues []JsonN
 		// Append at end of list
 		i = len(l)
 	}
+	if i < 0 {
+		return nil, fmt.Errorf("patch index out of bounds: %v", i)
+	}
 
 	switch {
 	case isVoid(newValue):
